@@ -68,10 +68,66 @@ def truth_table_form(cond, widths):
 WIDTH_OF = {"u8": 8, "u16": 16, "u32": 32, "u64": 64, "usize": 64}
 
 
+CONSUMING = ("u", "bytes", "tag", "opt", "complete", "many0", "many1", "all_consuming", "cut", "cond", "count", "alt", "param_parser", "opaque", "rewind")
+
+
+def region_start_len(seq):
+    """at the start of a region (before anything of it is consumed) what remains is the region's length: tests made
+    there on `remaining` are rewritten to tests on len(region), so that a helper told the length by its caller and one
+    that measures the slice it was handed compare equal"""
+    def subst_rem(x, repl):
+        if isinstance(x, list):
+            if x == ["remaining"]:
+                return repl
+            return [subst_rem(y, repl) for y in x]
+        return x
+
+    def lead(sq, repl):
+        """rewrite the leading, non-consuming part of sq (entered at the region start)"""
+        for st in sq["steps"]:
+            k = st[0]
+            if k == "guard":
+                st[1] = subst_rem(st[1], repl)
+            elif k == "ite":
+                st[2] = subst_rem(st[2], repl)
+                lead(st[3], repl)
+                lead(st[4], repl)
+                break
+            elif k == "switch":
+                st[2] = subst_rem(st[2], repl)
+                for _, a in st[3]:
+                    lead(a, repl)
+                lead(st[4], repl)
+                break
+            elif k == "cond":
+                st[2] = subst_rem(st[2], repl)
+                break
+            elif k == "bytes":
+                if not (st[2] == ["remaining"] and st[3] == "X"):   # (the canonical "all the rest" step stays)
+                    st[2] = subst_rem(st[2], repl)
+                break
+            elif k == "count":
+                st[2] = subst_rem(st[2], repl)
+                break
+            elif k in ("peek", "sub"):
+                continue
+            else:
+                break
+
+    seen = set()
+    def visit(st, p):
+        if st[0] == "sub" and id(st) not in seen:
+            seen.add(id(st))
+            lead(st[3], ["len", st[2]])
+    walk_steps(seq, visit)
+    return seq
+
+
 def simplify_len(seq):
     """the length of a slice taken with count n is n (`data.len() as u16` after `take(len)` is `len` again), and a
     widening cast of a wire integer is that integer: rewrite both everywhere, so that a length passed on as
     `slice.len()` and one passed on as the decoded length field compare equal"""
+    region_start_len(seq)
     counts, widths = {}, {}
     def note(st, p):
         if st[0] == "bytes" and st[2] != ["remaining"]:
